@@ -205,6 +205,11 @@ pub fn check(mut ctx: Ctx, replay: Option<J>) -> ! {
     }
     ctx.finish();
   }
+  // the JSON text specification against its recorded cases
+  let st = tlc.run(Run::new("SelfTest_JsonText", "SelfTest_JsonText.cfg").timeout(600).workers(4));
+  if !st.ok || st.lines.iter().any(|l| l.contains("is violated")) {
+    tool_error(&format!("SelfTest_JsonText failed: {}", st.error_text));
+  }
   // --- design: Server.tla keeps the C17 invariants (it adds only state-preserving actions)
   let mc = tlc.run(Run::new("MC_Server", "MC_Server.cfg").workers(4).timeout(600));
   if !mc.ok {
